@@ -433,6 +433,18 @@ def check_no_mutable_state_in_namespace(ctx):
                 if isinstance(t, ast.Attribute) and isinstance(t.value, ast.Name) and t.value.id == recv and fn_.cls is not None and m.is_metaclass(fn_.cls):
                     mutated.setdefault(t.attr, (fn_, st))
     ctx.counters["fields_reassigned_after_creation"] = len(mutated)
+    # an attribute put on the annotation class after it was created becomes part of the namespace a by-value serialiser ships: it must be
+    # a plain literal (the transparency flag), never a run-time object (a cache, a weak dictionary, a lock): such a class can no longer be
+    # serialised once it has been used, or carries state of this process into another one
+    for attr, (fn_, st) in sorted(mutated.items()):
+        v = st.value if isinstance(st, (ast.Assign, ast.AnnAssign, ast.AugAssign)) else None
+        if v is None or (isinstance(v, ast.Constant) and not isinstance(st, ast.AugAssign)):
+            continue
+        if isinstance(v, ast.Name) and v.id in fn_.params:
+            raise AnalysisError(f"C20.6: {fn_.qualname} stores its parameter `{v.id}` on the annotation class (`{short(st, 50)}`); what kind of object that is is not known")
+        ctx.bad("C20.6", fn_, st, f"`{short(st, 60)}` puts a run-time object into the namespace of an annotation class after it was created: by-value serialisers "
+                "(cloudpickle) ship that namespace, so an annotation that has been used can no longer be serialised (or carries this process's state with it)",
+                construct=f"late namespace entry `{attr}` holds a run-time object")
     clash = sorted(set(fields) & set(mutated))
     if clash:
         fn_, st = mutated[clash[0]]
